@@ -48,6 +48,10 @@ type Case struct {
 	// Head, Body: loop form and body of the quiet loops (loops that make no host call at all)
 	Head string `json:"head,omitempty"`
 	Body string `json:"body,omitempty"`
+	// Shape: form of the function bodies of the expression recursions; Roles: what the main flow (first) and the
+	// goroutines of a module race do with the shared module (eighth round, round8_test.go)
+	Shape string   `json:"shape,omitempty"`
+	Roles []string `json:"roles,omitempty"`
 }
 
 var spinCores = []string{"loop", "loop_cond", "cfor", "cfor_nocond", "forin_nested", "forin_map", "recursion", "loop_in_switch", "loop_nested_break", "loop_continue", "fanout_range", "fanout_recv", "fanout_recv2", "pipeline_relay", "deep_recursion", "fail_after_tick", "member_after_tick", "throw_spin", "fail_in_finally_try", "tick_sequence"}
@@ -254,6 +258,8 @@ func coreOf(c Case) string {
 		body = quietSrc(c.Head, c.Body)
 	} else if isRace(c.Core) {
 		body = raceSrc(c)
+	} else if isCore8(c.Core) {
+		body = core8Src(c)
 	} else {
 		body = coreSrc(c.Core)
 	}
@@ -440,6 +446,9 @@ func wrap(w string, body string, level int, tail bool) string {
 	case "defer_block_behind":
 		return "func() {\n defer func() {\n  dbv = <-never\n }()\n" + indent(body) + sent + "\n return 1\n}()" + sent
 	}
+	if s, ok := wrap8(w, body, level, fn, sent); ok {
+		return s
+	}
 	panic("unknown wrapper " + w)
 }
 
@@ -451,6 +460,9 @@ func source(c Case) string {
 			// goroutine has signalled completion: the main flow legitimately carries on (and may end
 			// the run) while the deferred core is still active. Rendered with its own frame instead.
 			w = "deferred"
+		}
+		if alt, ok := ownFrame8[w]; ok && deferFrameIsGoroutine(c.Wrappers[i+1:]) {
+			w = alt // the same for the eighth-round wrappers that register deferred calls in the current frame
 		}
 		body = wrap(w, body, i+1, c.Tail)
 	}
@@ -508,11 +520,20 @@ type result struct {
 	entered    bool
 	infra      string
 	cancelled  bool // the harness did cancel the context
+	// forced: the place of the cancellation was not reached within the patience (mode A: the k-th tick, mode B: the
+	// entry of the core) and the run had not ended either: the context was cancelled all the same
+	forced bool
+	// earlierHung: an earlier run of the case (history kind, or "definition run") did not end by itself, was
+	// cancelled and did not return within the bound either
+	earlierHung string
 }
 
 const runawayLimit = 50
 
-func runCase(c Case, bound time.Duration) result {
+func runCase(c Case, bound time.Duration) result { return runCaseH(c, bound, nil) }
+
+// runCaseH runs the earlier runs hist (eighth round), then the case.
+func runCaseH(c Case, bound time.Duration, hist []Hist) result {
 	src := source(c)
 	if c.Procs > 0 && !leaked {
 		// (a run that did not return may still keep a processor busy: later cases then leave GOMAXPROCS alone)
@@ -549,7 +570,7 @@ func runCase(c Case, bound time.Duration) result {
 	e.Define("id", func(x interface{}) interface{} { return x })
 	e.Define("call", func(f func()) { f() })
 	e.Define("entered", func() { enteredOnce.Do(func() { close(enteredCh) }) })
-	e.Define("tick", func() {
+	tickFn := func() {
 		n := ticks.Add(1)
 		if cancelled.Load() {
 			if post.Add(1) > runawayLimit {
@@ -564,7 +585,10 @@ func runCase(c Case, bound time.Duration) result {
 		if c.Mode == "A" && n == int64(c.K) {
 			doCancel()
 		}
-	})
+	}
+	e.Define("tick", tickFn)
+	// the same call with a result, for use inside expressions
+	e.Define("tickz", func() int64 { tickFn(); return 0 })
 	e.Define("warmup", int64(0))
 	// host functions that panic: a go statement captures the panic (not in debug mode)
 	e.Define("boom", func() { panic("boom") })
@@ -615,6 +639,19 @@ func runCase(c Case, bound time.Duration) result {
 		return id
 	})
 	var res result
+	for _, hi := range hist {
+		he := e
+		if !hi.SameEnv {
+			he = newHistEnv()
+		}
+		if hung, infra := runEarlier(he, histSrc(hi.Kind), bound); hung {
+			res.earlierHung = hi.Kind
+			return res
+		} else if infra != "" {
+			res.infra = "earlier run " + hi.Kind + ": " + infra
+			return res
+		}
+	}
 	if c.Stale {
 		if defs, rest, ok := sourceParts(c); ok {
 			// an earlier run of the same environment defines the function
@@ -623,7 +660,14 @@ func runCase(c Case, bound time.Duration) result {
 				// ... and calls it once, under its own (background) context
 				pre = "warmup = 1\n" + defs + call + "\nwarmup = 0\n"
 			}
-			if _, err := vm.Execute(e, nil, pre); err != nil {
+			// (run under a context of its own that is cancelled only when the run does not end by itself)
+			if err, hung, slow := execWatched(e, pre, bound, nil); hung {
+				res.earlierHung = "definition run"
+				return res
+			} else if slow {
+				res.infra = "definition run did not end by itself"
+				return res
+			} else if err != nil {
 				res.infra = "definition run failed: " + err.Error()
 				return res
 			}
@@ -644,7 +688,9 @@ func runCase(c Case, bound time.Duration) result {
 			res.entered = true
 		case <-done:
 		case <-time.After(10 * time.Second):
-			res.infra = "core was not entered within 10 s"
+			// the run neither reached its core nor ended: its context is cancelled all the same
+			res.forced = true
+			doCancel()
 		}
 		if res.entered {
 			if c.DelayUs > 0 {
@@ -656,6 +702,15 @@ func runCase(c Case, bound time.Duration) result {
 	select {
 	case <-done:
 	case <-time.After(bound + 2*time.Second):
+		if cancelAt.Load() == 0 {
+			// mode A, the k-th tick was not reached and the run has not ended: its context is cancelled all the same
+			res.forced = true
+			doCancel()
+			select {
+			case <-done:
+			case <-time.After(bound + 2*time.Second):
+			}
+		}
 	}
 	select {
 	case <-done:
@@ -678,11 +733,25 @@ func runCase(c Case, bound time.Duration) result {
 	return res
 }
 
-func oracle(c Case, o *h.Obs) *h.Fail {
+func oracle(c Case, o *h.Obs) *h.Fail { return judge("cancel", c, nil, o) }
+
+// judge runs the case (after the earlier runs hist, eighth round) and decides it; check is the name of the
+// sub-check the case belongs to (failures that are reported unshrunk are recorded under it).
+func judge(check string, c Case, hist []Hist, o *h.Obs) *h.Fail {
 	src := source(c)
 	o.Key = fmt.Sprintf("%s|%s|%d|%d|%d|%v", src, c.Mode, c.K, c.DelayUs, c.Procs, c.Stale)
 	if isRace(c.Core) {
 		o.Key += fmt.Sprintf("|%d", c.PaceNs)
+	}
+	for _, hi := range hist {
+		o.Key += fmt.Sprintf("|%s/%v", hi.Kind, hi.SameEnv)
+	}
+	// the case as it is saved with a failure that is reported unshrunk
+	saved := func(c Case) interface{} {
+		if check == "history" {
+			return HCase{History: hist, Later: c}
+		}
+		return c
 	}
 	o.Note = fmt.Sprintf("mode=%s k=%d delay=%dus procs=%d\n%s", c.Mode, c.K, c.DelayUs, c.Procs, src)
 	if c.Mode == "B" && c.Core == "tick_sequence" {
@@ -710,8 +779,33 @@ func oracle(c Case, o *h.Obs) *h.Fail {
 			}
 		}
 	}
+	if !ctxRef.InReplay() {
+		for _, hi := range hist {
+			if hungHist[hi.Kind] {
+				o.Excluded = "earlier run already part of a run reported as not returning"
+				return nil
+			}
+		}
+	}
 	const bound = 3 * time.Second
-	r := runCase(c, bound)
+	r := runCaseH(c, bound, hist)
+	if r.earlierHung != "" {
+		// an earlier run of the case did not end, was cancelled and did not return: reported as found, once per kind
+		f := h.Failf("C02|no-return|earlier-run:"+r.earlierHung, "an earlier run of the case (%s) did not end by itself within %v; its context was then cancelled and ExecuteContext did not return within %v of that cancellation\nearlier runs: %s\nsource of the cancellable run:\n%s", r.earlierHung, bound, bound, histNote(hist), src)
+		if !ctxRef.InReplay() {
+			ctxRef.Violation(check, f, saved(c))
+			leaked = true
+			histHangs++
+			for _, hi := range hist {
+				hungHist[hi.Kind] = true
+			}
+			if r.earlierHung == "definition run" {
+				markHung(c)
+			}
+			return nil
+		}
+		return f
+	}
 	if r.infra != "" {
 		o.Excluded = "infrastructure: " + r.infra
 		return nil
@@ -732,6 +826,7 @@ func oracle(c Case, o *h.Obs) *h.Fail {
 		o.Class("pre_" + k)
 	}
 	o.Class(fmt.Sprintf("pre_count_%d", len(c.Pre)))
+	classes8(c, hist, o)
 	if isRace(c.Core) {
 		o.Class(fmt.Sprintf("race_cap_%d_goroutines_%d", c.Cap, c.Senders))
 	}
@@ -748,6 +843,12 @@ func oracle(c Case, o *h.Obs) *h.Fail {
 		// the run ended by itself before the cancellation could be placed (e.g. a finally block
 		// that this implementation does not enter after a failing catch block)
 		o.Excluded = "core not reached: the run ended before the cancellation"
+		return nil
+	}
+	if r.forced && r.returned {
+		// only a run that does not return after this cancellation of last resort is judged
+		o.Excluded = "core not reached within the patience: the context was cancelled all the same and the run returned"
+		ctxRef.AddClass("place_of_cancellation_not_reached_in_time_"+c.Core, 1)
 		return nil
 	}
 	o.NonTrivial = len(c.Wrappers) >= 1 && (r.ticks >= int64(c.K) || r.entered || c.Mode == "A")
@@ -767,16 +868,51 @@ func oracle(c Case, o *h.Obs) *h.Fail {
 				// one signature per loop body, whatever the loop form and the wrappers
 				return "C02|" + clause + "|quiet_loop|body=" + c.Body
 			}
+			if c.Core == "expr_recursion" || c.Core == "expr_recursion_quiet" {
+				return "C02|" + clause + "|" + c.Core + "|body=" + shapeGroup(c.Shape)
+			}
 			// a hang costs seconds per run: one signature per core, whatever the wrappers
 			return "C02|" + clause + "|" + c.Core
+		}
+		if c.Core == "expr_recursion" && (clause == "keeps-running" || clause == "ticks-after-cancel") {
+			// one signature per form of the function bodies, whatever the wrappers
+			return "C02|" + clause + "|expr_recursion|body=" + shapeGroup(c.Shape)
+		}
+		if clause == "wrong-error" && r.err != nil {
+			// the error a failed frame already had came out instead of the interruption of its deferred call: one
+			// signature per kind of frame, whatever the core and the other wrappers
+			if fk := failedFrameKind(c, r.err.Error()); fk != "" {
+				return "C02|wrong-error|error-of-the-failed-frame-kept|frame=" + fk
+			}
 		}
 		return "C02|" + clause + "|" + site
 	}
 	detail := fmt.Sprintf("mode=%s k=%d delay=%dus procs=%d ticks=%d post-cancel ticks=%d post-cancel probes=%d\nsource:\n%s", c.Mode, c.K, c.DelayUs, c.Procs, r.ticks, r.postTicks, r.postProbes, src)
+	if r.forced {
+		detail = "(the place of the cancellation was not reached within the patience and the run had not ended: the context was cancelled all the same)\n" + detail
+	}
+	if len(hist) > 0 {
+		detail = "earlier runs: " + histNote(hist) + "\n" + detail
+	}
 	if r.runaway {
 		return h.Failf(sig("keeps-running"), "the script kept calling tick() after the context was cancelled (stopped by the harness after %d calls)\n%s", runawayLimit, detail)
 	}
 	if !r.returned {
+		if !ctxRef.InReplay() && len(hist) > 0 {
+			// is it the earlier runs? The same case is run once more without them: when it returns then, the earlier
+			// runs are what is reported (one signature per set of kinds)
+			if rb := runCaseH(c, bound, nil); rb.infra == "" && rb.earlierHung == "" && rb.returned {
+				f := h.Failf("C02|no-return|after-earlier-run:"+histKinds(hist), "ExecuteContext did not return within %v of the cancellation; the same run without the earlier runs returned\n%s", bound+2*time.Second, detail)
+				ctxRef.Violation(check, f, saved(c))
+				leaked = true
+				histHangs++
+				for _, hi := range hist {
+					hungHist[hi.Kind] = true
+				}
+				return nil
+			}
+			histHangs++
+		}
 		if !ctxRef.InReplay() && len(c.Pre) > 0 {
 			// which part keeps the run from returning? The same program without the go statements in front of the
 			// core is run once: when it does not return either, it is the one that is reported
@@ -794,7 +930,7 @@ func oracle(c Case, o *h.Obs) *h.Fail {
 		if !ctxRef.InReplay() {
 			// every reproduction of a hang costs seconds, so it is reported as found
 			// (unshrunk) and further cases with this core are not executed again
-			ctxRef.Violation("cancel", f, c)
+			ctxRef.Violation(check, f, saved(c))
 			markHung(c)
 			return nil
 		}
@@ -803,8 +939,8 @@ func oracle(c Case, o *h.Obs) *h.Fail {
 	if r.lateness > bound && !ctxRef.InReplay() {
 		// a late return is confirmed by running the case once more before it is reported (a stall of the machine
 		// is not the interpreter's); a case that is not late again is counted and not judged
-		r = runCase(c, bound)
-		if r.infra != "" || !r.cancelled || (r.returned && r.lateness <= bound) {
+		r = runCaseH(c, bound, hist)
+		if r.infra != "" || r.earlierHung != "" || !r.cancelled || (r.returned && r.lateness <= bound) {
 			o.Excluded = "late return not confirmed when the case was run again"
 			ctxRef.AddClass(fmt.Sprintf("late_return_not_confirmed_%s", c.Core), 1)
 			return nil
@@ -817,7 +953,7 @@ func oracle(c Case, o *h.Obs) *h.Fail {
 		// every re-execution costs seconds: reported as found, unshrunk, once per core
 		f := h.Failf(sig("late-return"), "ExecuteContext returned %v after the cancellation (bound %v)\n%s", r.lateness, bound, detail)
 		if !ctxRef.InReplay() {
-			ctxRef.Violation("cancel", f, c)
+			ctxRef.Violation(check, f, saved(c))
 			markHung(c)
 			return nil
 		}
@@ -848,7 +984,7 @@ func isSpin(core string) bool {
 			return true
 		}
 	}
-	return false
+	return core == "expr_recursion"
 }
 
 // replaying is set when a saved case is replayed (the callback wrapper is then judged
@@ -881,5 +1017,17 @@ func TestC02(t *testing.T) {
 	ctxRef = c
 	c.Rule("program = core wrapped in 0..3 constructs; cores: for{}, for cond{}, C-style loops, nested for-in over slices/maps, recursion, loops in switch / with break / continue, buffered channels fed by a spinning producer goroutine and drained by two consumers (for-in, receive, two-value receive) or relayed through a second channel (spinning), blocked receive / send / two-value receive / range over a channel nobody serves; wrappers: script functions of arity 0,2,4 (direct path), 5 and variadic (reflect path), anonymous call, go + join (both go paths), try body / catch / finally, ?? on either side, ternary, deferred call, list element, Go-call argument, module body, if, switch case, for-in body; every level is followed by a sentinel probe. cancel: mode A from inside the k-th tick() host call, mode B asynchronously d microseconds after the core was entered; GOMAXPROCS in {default,1,2,4}; in a quarter of the cases the outermost function is defined by an earlier run (background context) of the same environment and only called by the cancellable run. non-trivial = at least one wrapper and the cancel landed while the core was active; distinct = (source, mode, k, delay, procs). The callback wrapper (script function converted to a Go func) is the known finding F-callback-ctx: excluded from generation, reproduced from a committed replay")
 	c.Rule("added after the seventh round: (a) in a third of the cases one or two go statements stand in front of the core (same frame): a host function that returns / panics (with and without arguments; the go statement captures the panic), a script function that ends normally / with a runtime error / with a thrown error / in a panicking host function / stays blocked on a channel of its own, through the direct and the reflect call path and by name; whatever became of those goroutines, the cancelled run must return; (b) racing cores (asynchronous mode, cancel 200..2000 us after entry): the main flow and 1..3 goroutines of the script send to ONE buffered channel (capacity 1..3) at the same time, the goroutines paced by a host call that takes 0..10 us; the main flow makes the room for its own next send (a host call in channel position that takes one value out, or a receive statement of its own), so once the main flow is blocked in its send nobody serves the channel and the run stays blocked until the cancellation; the mirror image for receives (the main flow puts the one item it then receives, the goroutines receive as well); (c) quiet loops (asynchronous mode): loop form {for, for cond, C-style with and without condition, for-in over a slice / a map inside for{}} x body {empty, continue, continue first, assignment, if / else branch that continues, assignment then continue, inner loop that breaks, inner for-in that continues, switch case / try body / catch block that continues}: nothing in them calls the host, the run must return with the interruption error")
+	t0 := time.Now()
+	lap := func(name string) {
+		c.Extra("seconds_"+name, float64(int(time.Since(t0).Seconds()*10))/10)
+		t0 = time.Now()
+	}
 	h.Run(c, "cancel", c.N(6400, 32000), gen, oracle)
+	lap("cancel")
+	c.Rule("added after the eighth round, sub-check cancel8 (own case stream; cores and wrappers of the earlier rounds are mixed in): (a) expression recursions: an invocation consists of one return expression (ternary, && / ||, a helper call, mutual recursion, five-parameter / variadic / anonymous / module / closure functions), of one expression statement, or of if + return; started by ONE statement (no loop), with a host call at the leaves (cancel inside its k-th call or asynchronously) or without any host call (asynchronous); (b) module races (asynchronous, 500..5000 us after entry): the main flow and one or two goroutines of the script each loop over one operation on ONE module: copy it (assignment / var), write a member, write through a function of the module, read, call, write the enclosing scope; (c) wrappers in which the core runs inside a deferred call of a frame that has ALREADY failed: body ended by throw / a runtime error / an error thrown from a catch block, or a deferred call registered later threw; anonymous, named, five-parameter, variadic frames, the current frame (top level), a module body; half of the cases in tail position; the run must report the interruption, not the error the frame already had. A place of cancellation that is not reached within the patience (and a run that has not ended) gets its context cancelled all the same: only 'does not return' is judged then")
+	h.Run(c, "cancel8", c.N(1300, 6500), gen8, oracle8)
+	lap("cancel8")
+	c.Rule("added after the eighth round, sub-check history: 1..3 EARLIER runs (complete calls of the interpreter that end by themselves: 126 / 140 / 200 parameters rejected, 125 accepted, parse error, throw, runtime errors in five-parameter / variadic / deferred / module functions, wrong argument count, failed type path / module body / member assignment / make, host panics, runs whose own context is cancelled while spinning / blocked / in a deferred call, a joined goroutine that failed, a module copy, a successful run), each in the environment of the cancellable run or in another one, then a case of cancel / cancel8. The first time a kind of earlier run is used in the process every canary (for { tick() } in a function of arity 0 / 5 / variadic, goroutine, module, deferred call, try) is run right after it. A run that does not return is run again without the earlier runs to tell what it depends on; earlier runs and definition runs are watched (cancelled when they do not end; not returning then is reported)")
+	h.Run(c, "history", c.N(500, 2500), genH, oracleH)
+	lap("history")
 }
